@@ -13,13 +13,16 @@ import graphlib as gl
 import common
 
 RULE = ('(1) step-wise consumption of 2-4 simultaneously open REAL traversal iterators (ancestors/descendants/parents/children, with '
-        'and without the source, both graph classes; ontology.terms / term_ids) under every interleaving of two iterators with <= 4 '
+        'and without the source, both graph classes) under every interleaving of two iterators with <= 4 '
         'steps each and random interleavings of up to four, with complete queries sprinkled in between: the sequence each iterator '
         'yields must equal its standalone sequence, and the standalone multiset must equal the Lean model\'s; (2) 2-4 reader threads '
         'each draining its own iterator on the shared graph (switch interval 1e-6 s), 200 rounds, and 4 threads released by a barrier '
         'on a graph nobody has queried yet (fresh graph every round, answers compared with a sequentially queried twin), and a '
         'deterministic single-pre-emption scan: the first query on a fresh graph is stopped after exactly k executed lines of library '
-        'code for every k, a second thread runs a query to completion, the first resumes; (3) ONE factory instance of each '
+        'code for every k, a second thread runs a query to completion, the first resumes; the same for ontologies (minimal and full): '
+        'random histories of get_term / get_term_name / in / len / terms / term_ids in all argument forms with `.terms` and `.term_ids` '
+        'iterators held open across the history - every answer must equal that of the Lean model of the ontology (C06) - and '
+        'the single-pre-emption scan on a fresh ontology; (3) ONE factory instance of each '
         'class building a sequence of different graphs (pairs whose boundary edges share the subject at different node indices, '
         'random lists) must give what a fresh factory gives and what the model gives; (4) every order of loading <= 3 different '
         'documents (ontologies, an HPOA file read by loaders with three different cohort-size / salvage settings) through the default '
@@ -262,6 +265,168 @@ def preemption_scan(ctx, rng, factory, edges, cap):
     ctx.count('preemption_points', k)
 
 
+# ------------------------------------------------------------------ ontologies
+
+def random_term_collection(rng):
+    ids = [f'HP:{i:07d}' for i in rng.sample(range(1, 60), rng.randrange(3, 9))]
+    pool = [f'HP:{i:07d}' for i in range(100, 130)]
+    rng.shuffle(pool)
+    terms = []
+    for k, pid in enumerate(ids):
+        obs = k > 0 and rng.random() < 0.3
+        alts = [pool.pop() for _ in range(rng.choice([0, 0, 1, 2]))]
+        terms.append({'id': pid, 'name': f'name {pid}', 'alts': alts, 'obs': obs})
+    return terms
+
+
+def onto_query(onto, q):
+    """one ontology query, canonical answer"""
+    kind, curie, form = q
+    if kind == 'len':
+        return len(onto)
+    if kind == 'terms':
+        return [t.identifier.value for t in onto.terms]
+    if kind == 'term_ids':
+        return [t.value for t in onto.term_ids]
+    arg = gl.mk_arg(form, curie)
+    if kind == 'get_term':
+        t = onto.get_term(arg)
+        return None if t is None else [t.identifier.value, t.name, sorted(a.value for a in t.alt_term_ids)]
+    if kind == 'name':
+        return onto.get_term_name(arg)
+    if kind == 'in':
+        return arg in onto
+    raise ValueError(kind)
+
+
+def ontology_scenarios(ctx, rng, rounds, cap):
+    """(a) random query sequences on ONE ontology: every answer must equal the answer of a fresh twin asked only that query;
+    interleaved step-wise consumption of `.terms` / `.term_ids` iterators with lookups in between.  (b) the deterministic
+    single-pre-emption scan on a fresh ontology (first lookup stopped after k library lines, second thread looks up, first resumes)."""
+    from props import c06
+    src_root = os.path.join(common.REPO, 'src')
+    for r in range(rounds):
+        terms = random_term_collection(rng)
+        full = rng.random() < 0.5
+        ids = [t['id'] for t in terms] + [a for t in terms for a in t['alts']] + ['HP:0000999', 'MP:0000001']
+        forms = ['tid', 'str:', 'idf', 'str_']
+
+        def rq():
+            k = rng.choice(['get_term', 'get_term', 'name', 'in', 'len', 'terms', 'term_ids'])
+            return (k, rng.choice(ids), rng.choice(forms))
+        seq = [rq() for _ in range(rng.randrange(5, 25))]
+        model = common.run_driver([{'op': 'onto.lookup', 'terms': terms, 'queries': ids}])[0]
+        with warnings.catch_warnings():
+            warnings.simplefilter('ignore')
+            onto, _ = c06.build_impl(terms, full)
+            ctx.case(['onto-history', terms, full, seq], True, 'ontology.query-histories', sample={'terms': terms[:3], 'full': full, 'queries': seq[:5]} if r == 0 else None)
+            # two iterators open across the whole sequence
+            it1, it2 = iter(onto.terms), iter(onto.term_ids)
+            got1, got2 = [], []
+            problem = None
+            for q in seq:
+                v = next(it1, END)
+                if v is not END:
+                    got1.append(v.identifier.value)
+                try:
+                    a = onto_query(onto, q)
+                except Exception as e:  # noqa
+                    a = f'raises {type(e).__name__}'
+                # reference: the Lean model of the ontology (C06), so that a leak shared by all ontologies of the process shows too
+                mrep = model['answers'][ids.index(q[1])] if q[0] in ('get_term', 'name', 'in') else None
+                if q[0] == 'get_term':
+                    a = a if a is None or isinstance(a, str) else a[0]
+                    b = mrep['id']
+                elif q[0] == 'name':
+                    b = mrep['name']
+                elif q[0] == 'in':
+                    b = mrep['contains']
+                elif q[0] == 'len':
+                    b = model['len']
+                else:
+                    b = model[q[0]]
+                if isinstance(a, list) and q[0] in ('terms', 'term_ids'):
+                    a, b = sorted(a), sorted(b)
+                if a != b:
+                    problem = {'query': list(q), 'impl_after_history': a, 'model': b}
+                    break
+                v = next(it2, END)
+                if v is not END:
+                    got2.append(v.value)
+            if problem is None:
+                got1 += [t.identifier.value for t in it1]
+                got2 += [t.value for t in it2]
+                twin, _ = c06.build_impl(terms, full)
+                if sorted(got1) != sorted(t.identifier.value for t in twin.terms) or sorted(got2) != sorted(t.value for t in twin.term_ids):
+                    problem = {'query': 'terms / term_ids iterators held open across the history', 'impl_after_history': [got1, got2],
+                               'impl_fresh_twin': [[t.identifier.value for t in twin.terms], [t.value for t in twin.term_ids]]}
+            if problem:
+                ctx.violation('ontology:history', {'case': {'kind': 'onto-history', 'terms': terms, 'full': full, 'queries': [list(q) for q in seq]},
+                                                   **problem, 'theorem': 'Hpv.Props.C12.eval_history_free'})
+                return
+    # (b) single pre-emption on a fresh ontology
+    terms = random_term_collection(rng)
+    full = rng.random() < 0.5
+    with warnings.catch_warnings():
+        warnings.simplefilter('ignore')
+        twin, _ = c06.build_impl(terms, full)
+    alt_owner = next((t for t in terms if t['alts'] and not t['obs']), terms[0])
+    qa = ('get_term', (alt_owner['alts'] or [alt_owner['id']])[0], 'str:')
+    qb = ('get_term', terms[-1]['id'], 'tid')
+    want = [onto_query(twin, qa), [onto_query(twin, qb), onto_query(twin, ('in', terms[0]['id'], 'str:')), onto_query(twin, ('len', '', ''))]]
+    k = 0
+    while k < cap:
+        k += 1
+        with warnings.catch_warnings():
+            warnings.simplefilter('ignore')
+            onto, _ = c06.build_impl(terms, full)
+        res = [None, None]
+        go_b, b_done = threading.Event(), threading.Event()
+        state = {'lines': 0, 'reached': False}
+
+        def tracer(frame, event, arg):
+            if not frame.f_code.co_filename.startswith(src_root):
+                return None
+            if event == 'line':
+                state['lines'] += 1
+                if state['lines'] == k:
+                    state['reached'] = True
+                    go_b.set()
+                    b_done.wait(10)
+            return tracer
+
+        def work_a():
+            sys.settrace(tracer)
+            try:
+                res[0] = onto_query(onto, qa)
+            except Exception as e:  # noqa
+                res[0] = f'raises {type(e).__name__}: {e}'
+            finally:
+                sys.settrace(None)
+                go_b.set()
+
+        def work_b():
+            go_b.wait(10)
+            try:
+                res[1] = [onto_query(onto, qb), onto_query(onto, ('in', terms[0]['id'], 'str:')), onto_query(onto, ('len', '', ''))]
+            except Exception as e:  # noqa
+                res[1] = f'raises {type(e).__name__}: {e}'
+            finally:
+                b_done.set()
+        ta, tb = threading.Thread(target=work_a), threading.Thread(target=work_b)
+        tb.start()
+        ta.start()
+        ta.join()
+        tb.join()
+        ctx.case(['onto-preempt', terms, full, k], True, 'ontology.single-preemption', sample={'A': qa, 'B': qb, 'A_stopped_after_lines': k} if k == 1 else None)
+        if res != want:
+            ctx.violation('ontology:preempted-first-lookup', {'case': {'kind': 'onto-preempt', 'terms': terms, 'full': full, 'A': list(qa), 'B': list(qb), 'k': k},
+                                                             'impl': res, 'impl_sequential_twin': want, 'theorem': 'Hpv.Props.C12 (partial: pre-emption)'})
+            return
+        if not state['reached']:
+            break
+
+
 def graph_dump(g):
     return {'nodes': [t.value for t in g], 'root': g.root.value,
             'parents': [[n.value, sorted(p.value for p in g.get_parents(n))] for n in g],
@@ -412,6 +577,7 @@ def run(ctx):
     for f in gl.FACTORIES:
         for _ in range(4 if thorough else 1):
             preemption_scan(ctx, rng, f, gl.random_dag(rng, n=rng.randrange(5, 9))[0], 600 if thorough else 250)
+    ontology_scenarios(ctx, rng, 120 if thorough else 25, 400 if thorough else 150)
     factory_reuse(ctx, rng, thorough)
     load_orders(ctx, rng, thorough)
 
